@@ -350,6 +350,14 @@ func monitorRules(c *Ctx, m *locks.Monitor) (waits, bcasts, stores int) {
 						return false
 					}
 					r2, ok := locks.RelTo(op.Cond, m.Type)
+					if !ok && n.F != g.Root {
+						// the helper was handed the condition variable: what this frame's call site passed
+						if up := framePath(n.F, call.Common().Args[0]); up.Root != op.Cond.Root {
+							if r3, ok3 := locks.RelTo(up, m.Type); ok3 && r3 == cf {
+								return true
+							}
+						}
+					}
 					if !ok || r2 != cf {
 						return false
 					}
